@@ -263,9 +263,20 @@ impl FsCommand {
     /// Returns a random temporary file name in the same directory, guaranteed to not collide with
     /// any other file in the same directory
     pub fn temp_file(path: &Path) -> Path {
-        let mut name = path
+        let name = path
             .file_name()
             .expect("must be a regular file with a name");
+        // A file name can't be longer than 255 bytes on most file systems. Make room for
+        // the suffix, otherwise files with long names could never be renamed to a temporary.
+        #[cfg(unix)]
+        let mut name = {
+            use std::os::unix::ffi::{OsStrExt, OsStringExt};
+            const MAX_PREFIX_LEN: usize = 255 - 1 - 24;
+            let bytes = name.as_bytes();
+            std::ffi::OsString::from_vec(bytes[..bytes.len().min(MAX_PREFIX_LEN)].to_vec())
+        };
+        #[cfg(not(unix))]
+        let mut name = name;
         name.push(".");
         name.push(
             rand::thread_rng()
